@@ -38,16 +38,18 @@ class C38(Check):
     level = "exploration"
     engine = "clock"
     design_ref = "§6 C38"
-    rule = ("Exchanger and a non-finishing Exchangent created with every combination of timeout in {default,0,0.5,0.75,1,2} and "
+    rule = ("Exchanger, a non-finishing Exchangent and an Exchangent whose reply is first sent at a drawn later step, created with every combination of timeout in {default,0,0.5,0.75,1,2} and "
             "redo timeout in {default,0,1/8,3/16,1/4,1/2,1} (passed by the documented keyword), started, then driven by a "
             "seeded schedule of stamp advances (multiples of 1/16 s, some skipping several redo intervals) each followed "
             "by process(), optionally finished by the peer at a drawn step; non-trivial = at least one retransmission or "
             "a timeout occurred; distinct = digest of (settings, transmission times, outcome)")
     components = {"real": ["ioflo.aio.proto.exchanging.Exchange/Exchanger/Exchangent", "ioflo.aid.timing.StoreTimer/Stamper"],
                   "stub": ["stack (records transmit)", "device", "stamp advanced by the simulator"]}
-    assumptions = ["process() is called after every advance while the exchange is not finished; 'once each time the redo interval elapses' is "
+    assumptions = ["redo intervals are counted from the start of the exchange (each elapsed interval re-arms the timer whether or not there "
+                   "is anything to retransmit yet), so a reply first sent late is retransmitted at the next interval boundary, never immediately",
+                   "process() is called after every advance while the exchange is not finished; 'once each time the redo interval elapses' is "
                    "measured from the previous (re)transmission as observed at process() calls"]
-    required_probes = ["redo-passed", "timeout-zero", "timed-out", "retransmitted", "skip-several-intervals", "finished-by-peer"]
+    required_probes = ["redo-passed", "timeout-zero", "timed-out", "retransmitted", "skip-several-intervals", "finished-by-peer", "late-first-send", "late-retransmitted"]
     quick_runs = 20000
     thorough_runs = 1000000
     shrink_fields = ["advances"]
@@ -63,8 +65,12 @@ class C38(Check):
         r = REDOS[(index // len(TIMEOUTS)) % len(REDOS)]
         n = g.randint(1, 50)
         adv = [g.choice([1, 1, 2, 3, 4, 8, 20]) for _ in range(n)]
-        return {"cls": g.choice(["Exchanger", "Exchanger", "Exchangent"]), "timeout": t, "redo": r, "advances": adv,
+        cls = g.choice(["Exchanger", "Exchanger", "Exchangent", "ExchangentLate"])
+        plan = {"cls": cls, "timeout": t, "redo": r, "advances": adv,
                 "finish_at": g.choice([None, None, g.randint(0, n)]), "pre": g.choice([0, 1, 7, 40])}
+        if cls == "ExchangentLate":     # the correspondent's reply is not ready when the exchange starts: first sent at a later step
+            plan["send_at"] = g.randint(0, max(0, n - 1))
+        return plan
 
     def execute(self, plan):
         from ioflo.aio.proto import exchanging
@@ -82,6 +88,11 @@ class C38(Check):
         label = "%s(timeout=%r, redoTimeout=%r)" % (plan["cls"], plan["timeout"], plan["redo"])
         if plan["cls"] == "Exchanger":
             base = exchanging.Exchanger
+        elif plan["cls"] == "ExchangentLate":
+            class Late(exchanging.Exchangent):      # a correspondent whose reply is produced later
+                def respond(self, rx=None):
+                    self.rx = rx
+            base = Late
         else:
             class Waiting(exchanging.Exchangent):   # a correspondent that answers and then waits for the peer
                 def respond(self, rx=None):
@@ -116,7 +127,8 @@ class C38(Check):
             out.digest = tr.digest()
             return out
         # model
-        m_sent = [t0]
+        late = plan["cls"] == "ExchangentLate"
+        m_sent = [] if late else [t0]
         m_start = t0
         m_last = t0
         m_failed = False
@@ -145,9 +157,20 @@ class C38(Check):
             elif redo > 0.0 and now >= m_last + redo:
                 if now >= m_last + 2 * redo:
                     out.probe("skip-several-intervals")
-                m_sent.append(now)
+                if not late or m_sent:
+                    m_sent.append(now)
+                    out.probe("retransmitted")
+                    if late:
+                        out.probe("late-retransmitted")
                 m_last = now
-                out.probe("retransmitted")
+            if late and i == plan.get("send_at") and not m_done:
+                try:
+                    ex.send(b"reply")            # the reply became ready after this process() call
+                except Exception as exn:
+                    out.violate("exception", "send raised %s" % type(exn).__name__, repr(exn))
+                    break
+                m_sent.append(now)
+                out.probe("late-first-send")
             got = [t for t, p in stack.sent]
             tr.add(i, now, len(got), ex.done, ex.failed)
             if got != m_sent:
